@@ -110,6 +110,23 @@ def _union(case, res, bb):
         res.v("union-attractor-reported-twice", "an attractor of the union is reported twice", ctx=ctx)
     if set(got_att) != exp_att:
         res.v("union-attractors", f"{len(set(got_att))} attractors, the product of the parts has {len(exp_att)}; missing {len(exp_att - set(got_att))}, unexpected {len(set(got_att) - exp_att)}", ctx=ctx)
+    # the same union through source-SCC expansion (every part is a separate set of source SCCs): nothing missing,
+    # nothing spurious; duplicates are judged by C01
+    try:
+        sd2 = bb.make_sd(u)
+        if W(lambda: sd2.expand_scc()) is not True:
+            res.v("union-scc-not-complete", "expand_scc() on the union did not report completion", ctx=ctx)
+        else:
+            mins2 = sorted(bb.kspace(ru, sd2.node_data(i)["space"]) for i in sd2.minimal_trap_spaces())
+            if mins2 != exp_mins:
+                res.v("union-minimal-trap-spaces:scc", f"{len(mins2)} minimal trap spaces after expand_scc(), the product has {len(exp_mins)}", ctx=ctx)
+            sets2 = W(lambda: sd2.expanded_attractor_sets(), nodes=len(sd2))
+            got2 = {frozenset(bb.vset_states(ru, vs)[0]) for ss in sets2.values() for vs in ss}
+            res.c("unions_compared_scc")
+            if got2 != exp_att:
+                res.v("union-attractors:scc", f"expand_scc(): {len(got2)} distinct attractors, the product of the parts has {len(exp_att)}; missing {len(exp_att - got2)}, unexpected {len(got2 - exp_att)}", ctx=ctx)
+    except bb.Aborted as e:
+        res.inconclusive = f"aborted: {e}"
     res.nontrivial = len(exp_att) >= 4
     if res.nontrivial and case["rs"] % 40 == 0:
         res.sample = {"rules": rules, "product_attractors": len(exp_att), "product_min_traps": len(exp_mins)}
